@@ -5,6 +5,11 @@ ROOT = os.path.dirname(os.path.dirname(os.path.abspath(__file__)))
 BASE_OFF = "cd /repo && env -u BUIDL_VERIF_TRACE /venv/bin/python -m pytest -ra -q -p no:cacheprovider --timeout=900 --continue-on-collection-errors"
 
 CLAIMED = {
+ "C10": dict(
+   text="TLC explores the signing workflow with several PSBT copies in flight (every interleaving of Sign / Combine / Finalize for m-of-n): what a copy holds and what it finalises to is a function of the set of contributing signers, and a copy is finalisable iff at least m contributed. The model's behaviours are replayed on real wallets (P2PKH, P2WPKH, P2SH-P2WPKH, P2SH / P2WSH / P2SH-P2WSH m-of-n, 1..2 inputs, HD keys, unknown key-values): every signer subset, sequential signing in every order and parallel signing with left and right folds of combine; PSBTs reached for the same signer set must be byte-identical and finalise/extract verifies iff at least m signed. Every PSBT reached is parsed by TLC with the BIP174 container specification (unique keys, map counts, unsigned transaction in non-witness format with empty scriptSigs, partial-signature counts, parse/serialise identity, still loadable after extraction); PSBTs carrying invalid partial signatures, alone or next to valid ones, must fail to load.",
+   design="3/C10",
+   note="Trusted: TLC, Workflow.tla / PSBTWire.tla; validity of extracted transactions is observed through Tx.verify_input (C06). Keys random, amounts fixed; n = 4 and 3 inputs only in the thorough tier.",
+   technique="TLA+ workflow state machine model-checked by TLC, behaviours replayed on real wallets, TLC validation of every recorded PSBT against the container specification"),
  "C16": dict(
    text="TLC proves by linearity of Core's descriptor checksum that every single-symbol error and every pair of symbol errors at most three positions apart -- all a one-character substitution can cause (its 5-bit symbol and its class-group symbol) -- is detected, for all value differences up to a maximal stream length. For random wallets with 1 <= m <= n <= 6 (SLIP-132 prefixes, account indexes to 2^31-2, both path notations) TLC rebuilds the descriptor text and checksum from the key records (Base58Check of the normalised xpub, sorting, layout, 40-bit polymod), checks the parse round trip, the address at (branch, offset) as P2WSH of the m-of-n script over the lexicographically sorted child keys (certified sha256, bech32), every permutation of supply order, receive/change disjointness, and decides single-character substitutions over the charset at every position of sampled descriptors.",
    design="3/C16",
